@@ -157,3 +157,9 @@ add("C20", "model_checking",
     "Each wrapper through which description text reaches a generated file is executed on a symbolic Stripped text (all of Unicode, bounded length); a small lexer of the target language decides whether "
     "the output is exactly one docstring / one comment block (no early close, no line outside the comment, no line splice); witnesses are replayed through compile(), g++ -fsyntax-only, node --check and javac.",
     "Only the comment/docstring wrappers are decided, not whole generated files (C19 covers literals); C# XML documentation and the reST rendering before the wrappers are outside. One open known finding (C++ line splice).")
+
+add("C21", "model_checking",
+    "bounded symbolic execution (CrossHair/z3) of every target's naming functions on a symbolic pair of different identifiers (collision search); each colliding path yields a witness which is decided on a real meta-model by the real front end and the real target verification",
+    "For each scope (two properties, two classes, class and enumeration, two literals) and each of the eight targets the real naming functions run on two symbolic identifiers; every path on which two generated names "
+    "coincide is a candidate whose witness is written into a meta-model: if the real front end accepts it, every target in which the names coincide must report an error from verify_for_types / generate.",
+    "Identifiers of <= 3 (4) characters over {a,b,A,B,_,1}; one witness per path class of the naming code reaches the generators (stated). Two open known findings (C#/Java literals, JSON property names).")
